@@ -75,6 +75,20 @@ def body(run):
         mc = [None, dict(mask_partial=True, downsampling='nearest'), dict(mask_partial=True), dict(upsampling='bilinear'),
               dict(mask_partial=True, downsampling='mode'), dict(downsampling='bilinear', upsampling='nearest')][k % 6]
         ks_for_mem = kshape if not (mc or {}).get('mask_partial') else (kshape[0] + 2, kshape[1] + 2)
+        if (mc or {}).get('mask_partial') and (k // 6) % 2 == 0:
+            # partial masking on the reference grid with a finer source whose invalid pixels are scattered singles: processing pixels that are only
+            # PARTLY covered by valid source pixels - where a wrong coverage rule would let a hidden value through - and the source's encoding varied
+            for _try in range(20):
+                g = synth.aligned_geom(rng, max_src=run.scale(28, 44))
+                if g.ratio >= 2:
+                    break
+            which, proc = 'src', 'auto'
+            sm = fz.src_mask(rng, g.src_shape, 'islands')
+            for _ in range(6):
+                sm[rng.randrange(g.src_shape[0]), rng.randrange(g.src_shape[1])] = False
+            rm = np.ones(g.ref_shape, bool)
+            src = fz.texture(rng, g.src_shape, 1, lo=20, hi=220)
+            ref = fz.texture(rng, g.ref_shape, 1, lo=30, hi=180)
         vs = variants(dtype, rng)
         if not run.thorough:
             # baseline, the numeric-nodata / first alternative, and one more drawn at random
